@@ -38,3 +38,6 @@ def tx(seed, n):
 
 def rate(seed, n):
     return _mk("rate", "rate", gen_hc.rate_case, n, seed * 101 + 8)
+
+def twin(seed, n):
+    return _mk("twin", "hc", gen_hc.twin_case, n, seed * 101 + 9)
